@@ -771,8 +771,18 @@ func (e *Engine) prepareCall(fr *frame, c *ssa.CallCommon, site ssa.Instruction)
 		if recv.T == nil {
 			e.goPanicf(site, "nil interface method call %s", c.Method.Name())
 		}
+		var nat *Native
 		if n, ok := recv.V.(*Native); ok && n != nil {
-			fnv = &nativeCall{n: n, method: c.Method.Name()}
+			nat = n
+		} else if p, ok := recv.V.(Ptr); ok && p.P != nil {
+			if n, ok := (*p.P).(*Native); ok && n != nil {
+				if _, has := nativeMethods[n.Kind+"."+c.Method.Name()]; has {
+					nat = n
+				}
+			}
+		}
+		if nat != nil {
+			fnv = &nativeCall{n: nat, method: c.Method.Name()}
 		} else {
 			fnv = e.lookupMethod(recv.T, c.Method, site)
 		}
